@@ -60,10 +60,10 @@ type termKey struct {
 	w       uint8
 	a, b, c uint32
 	k       uint64
-	name    string
 }
 
 type Store struct {
+	vars   map[string]*Term
 	tab    map[termKey]*Term
 	nextID uint32
 	True   *Term
@@ -72,7 +72,7 @@ type Store struct {
 }
 
 func NewStore() *Store {
-	s := &Store{tab: map[termKey]*Term{}, nextID: 1}
+	s := &Store{tab: map[termKey]*Term{}, vars: map[string]*Term{}, nextID: 1}
 	s.True = s.mk(OpConst, 0, nil, nil, nil, 1, "")
 	s.False = s.mk(OpConst, 0, nil, nil, nil, 0, "")
 	return s
@@ -86,11 +86,20 @@ func tid(t *Term) uint32 {
 }
 
 func (s *Store) mk(op Op, w uint8, a, b, c *Term, k uint64, name string) *Term {
-	key := termKey{op, w, tid(a), tid(b), tid(c), k, name}
+	if op == OpVar {
+		if t, ok := s.vars[name]; ok {
+			return t
+		}
+		t := &Term{op: op, w: w, name: name, id: s.nextID}
+		s.nextID++
+		s.vars[name] = t
+		return t
+	}
+	key := termKey{op, w, tid(a), tid(b), tid(c), k}
 	if t, ok := s.tab[key]; ok {
 		return t
 	}
-	t := &Term{op: op, w: w, a: a, b: b, c: c, k: k, name: name, id: s.nextID}
+	t := &Term{op: op, w: w, a: a, b: b, c: c, k: k, id: s.nextID}
 	s.nextID++
 	s.tab[key] = t
 	return t
